@@ -714,6 +714,11 @@ structure NoiseFacts (N : NoiseTables) : Prop where
   laserWaist : "laser_waist" ∈ N.paramsOf "amplitude"
   wlNotZeroed : N.zeroed.contains "with_leakage" = false
   defaultsFalsy : ∀ kv ∈ N.defaults, kv.2.truthy = false
+  ratesParam : "eff_noise_rates" ∈ N.params
+  opersParam : "eff_noise_opers" ∈ N.params
+  noEffNoise : "eff_noise" ∉ N.params
+  ratesNotZeroed : N.zeroed.contains "eff_noise_rates" = false
+  opersNotZeroed : N.zeroed.contains "eff_noise_opers" = false
   simInj : ((N.params.filter (· ≠ "with_leakage")).map (simName N)).Nodup
   simNoNoise : "noise" ∉ N.params.map (simName N)
 
@@ -721,8 +726,8 @@ theorem noiseFacts {N : NoiseTables} (h : NoiseTablesOk N) : NoiseFacts N := by
   unfold NoiseTablesOk noiseTablesOk at h
   simp only [Bool.and_eq_true, decide_eq_true_eq, List.all_eq_true, beq_iff_eq,
     Bool.not_eq_true', List.contains_iff_mem] at h
-  obtain ⟨⟨⟨⟨⟨⟨⟨⟨⟨⟨⟨⟨⟨_, h2⟩, h3⟩, h4⟩, h5⟩, h6⟩, h7⟩, h8⟩, h9⟩, h10⟩, h11⟩, h12⟩, h13⟩, h14⟩ := h
-  refine ⟨?_, ?_, ?_, h5, ?_, h7, ?_, ?_, ?_, h11, ?_, h13, ?_⟩
+  obtain ⟨⟨⟨⟨⟨⟨⟨⟨⟨⟨⟨⟨⟨⟨⟨⟨⟨⟨_, h2⟩, h3⟩, h4⟩, h5⟩, h6⟩, h7⟩, h8⟩, h9⟩, h10⟩, h11⟩, h12⟩, h15⟩, h16⟩, h17⟩, h18⟩, h19⟩, h13⟩, h14⟩ := h
+  refine ⟨?_, ?_, ?_, h5, ?_, h7, ?_, ?_, ?_, h11, ?_, ?_, ?_, ?_, h18, h19, h13, ?_⟩
   · intro tp htp p hp; exact h2 tp htp p hp
   · intro pt hpt; have := h3 pt hpt; simpa [List.contains_iff_mem] using this
   · intro pt hpt; have := h4 pt hpt; simpa [List.contains_iff_mem] using this
@@ -731,6 +736,9 @@ theorem noiseFacts {N : NoiseTables} (h : NoiseTablesOk N) : NoiseFacts N := by
   · simpa [List.contains_iff_mem] using h9
   · simpa [List.contains_iff_mem] using h10
   · intro kv hkv; exact h12 kv hkv
+  · simpa [List.contains_iff_mem] using h15
+  · simpa [List.contains_iff_mem] using h16
+  · simpa [List.contains_iff_mem] using h17
   · simpa [List.contains_iff_mem, simName] using h14
 
 theorem paramsOf_spec {N : NoiseTables} {t p : String} (h : p ∈ N.paramsOf t) :
@@ -1310,6 +1318,228 @@ theorem deviceRecOk_of_B {D : DeviceTables} {noise : Sub} {T : Tables} {ex : Lis
     · rcases this with h | h
       · exact absurd h hn
       · exact Or.inr ⟨hn, h.1, h.2⟩
+
+/-! ### Noise model ⇄ JSON -/
+
+theorem get?_filter_key (q : String → Bool) : ∀ (l : Record) (k : String),
+    Record.get? (l.filter (fun kv => q kv.1)) k = if q k then Record.get? l k else none
+  | [], k => by simp [Record.get?]
+  | (k', v) :: rest, k => by
+    have ih := get?_filter_key q rest k
+    by_cases hq : q k' = true
+    · simp only [List.filter_cons, hq, if_true, Record.get?_cons]
+      by_cases e : k' = k
+      · subst e; simp [hq]
+      · simp only [if_neg e]; exact ih
+    · simp only [List.filter_cons, hq]
+      simp only [Bool.false_eq_true, if_false, Record.get?_cons]
+      by_cases e : k' = k
+      · subst e; rw [ih]; simp [hq]
+      · simp only [if_neg e]; exact ih
+
+theorem unzip_zip_fst : ∀ (rs os : List Value), rs.length = os.length →
+    (List.zipWith (fun a b => Value.list [a, b]) rs os).filterMap pairFst = rs
+  | [], [], _ => rfl
+  | r :: rs, o :: os, h => by
+    simp only [List.zipWith_cons_cons, List.filterMap_cons, pairFst]
+    rw [unzip_zip_fst rs os (by simpa using h)]
+  | [], _ :: _, h => by simp at h
+  | _ :: _, [], h => by simp at h
+
+theorem unzip_zip_snd : ∀ (rs os : List Value), rs.length = os.length →
+    (List.zipWith (fun a b => Value.list [a, b]) rs os).filterMap pairSnd = os
+  | [], [], _ => rfl
+  | r :: rs, o :: os, h => by
+    simp only [List.zipWith_cons_cons, List.filterMap_cons, pairSnd]
+    rw [unzip_zip_snd rs os (by simpa using h)]
+  | [], _ :: _, h => by simp at h
+  | _ :: _, [], h => by simp at h
+
+section NoiseJson
+variable {N : NoiseTables} (vals : String → Value)
+
+/-- The parameters `_to_abstract_repr` removes from `asdict`. -/
+def special (p : String) : Bool := p = "with_leakage" || p = "eff_noise_rates" || p = "eff_noise_opers"
+
+theorem noiseEncode_get?_kept (F : NoiseFacts N) {k : String} (hk : special k = false)
+    (hmem : k = "noise_types" ∨ k ∈ N.params) :
+    Record.get? (noiseEncode (nmOf N vals)) k = Record.get? (nmOf N vals) k := by
+  unfold noiseEncode
+  simp only
+  rw [Record.get?_append]
+  have hq : (fun kv : String × Value => decide (kv.1 ≠ "with_leakage") && decide (kv.1 ≠ "eff_noise_rates") &&
+      decide (kv.1 ≠ "eff_noise_opers")) = (fun kv => (fun p => !special p) kv.1) := by
+    funext kv; unfold special; simp [Bool.not_or, Bool.and_assoc]
+  rw [hq, get?_filter_key (fun p => !special p)]
+  simp only [hk, Bool.not_false, if_true]
+  cases hg : Record.get? (nmOf N vals) k with
+  | some v => rfl
+  | none =>
+    -- impossible: the key is a field of the instance
+    exfalso
+    rcases hmem with h | h
+    · rw [h, noiseInit_get?_types] at hg; cases hg
+    · rw [noiseInit_get?_param F vals h] at hg; cases hg
+
+theorem noiseEncode_get?_eff (F : NoiseFacts N) :
+    Record.get? (noiseEncode (nmOf N vals)) "eff_noise" =
+      some (.list (List.zipWith (fun a b => Value.list [a, b])
+        (match Record.get? (nmOf N vals) "eff_noise_rates" with | some (.list xs) => xs | _ => [])
+        (match Record.get? (nmOf N vals) "eff_noise_opers" with | some (.list xs) => xs | _ => []))) := by
+  unfold noiseEncode
+  simp only
+  rw [Record.get?_append]
+  have hnone : Record.get? (List.filter (fun kv : String × Value => decide (kv.1 ≠ "with_leakage") &&
+      decide (kv.1 ≠ "eff_noise_rates") && decide (kv.1 ≠ "eff_noise_opers")) (nmOf N vals)) "eff_noise"
+      = none := by
+    apply Record.get?_none_of_not_mem
+    intro hm
+    simp only [Record.keys, List.mem_map, List.mem_filter] at hm
+    obtain ⟨kv, ⟨hkv, _⟩, e⟩ := hm
+    have hkv' : kv ∈ noiseInit N (argsOf N vals) := hkv
+    unfold noiseInit at hkv'
+    rcases List.mem_cons.mp hkv' with h | h
+    · rw [h] at e; simp at e
+    · obtain ⟨kv', hkv', e'⟩ := List.mem_map.mp h
+      unfold argsOf at hkv'
+      obtain ⟨p, hp, ep⟩ := List.mem_map.mp hkv'
+      have hk1 : (normParam N kv').1 = kv'.1 := by unfold normParam; split <;> rfl
+      rw [← e', hk1, ← ep] at e
+      simp only at e
+      exact F.noEffNoise (e ▸ hp)
+  rw [hnone]
+  simp only
+  rw [Record.get?_cons, if_pos rfl]
+  rfl
+
+/-- The arguments `_deserialize_noise_model` hands to the constructor. -/
+def jsonBackVals (N : NoiseTables) (vals : String → Value) (rs os : List Value) (p : String) : Value :=
+  if p = "eff_noise_rates" then .list rs
+  else if p = "eff_noise_opers" then .list os
+  else if p = "with_leakage" then .bool ((typesOf N vals).contains "leakage")
+  else if noiseRelevant N (nmOf N vals) p then normVal N p (vals p)
+  else N.dfl p
+
+end NoiseJson
+
+section NoiseJson2
+variable {N : NoiseTables} (vals : String → Value)
+
+theorem normParam_eq (N : NoiseTables) (p : String) (v : Value) : normParam N (p, v) = (p, normVal N p v) := by
+  unfold normVal normParam; split <;> rfl
+
+/-- Two argument valuations that are stored alike build the same instance. -/
+theorem noiseInit_congr (f g : String → Value)
+    (h : ∀ p ∈ N.params, normVal N p (f p) = normVal N p (g p)) :
+    noiseInit N (argsOf N f) = noiseInit N (argsOf N g) := by
+  unfold noiseInit argsOf
+  have hmap : (N.params.map (fun p => (p, f p))).map (normParam N) =
+      (N.params.map (fun p => (p, g p))).map (normParam N) := by
+    rw [List.map_map, List.map_map]
+    apply List.map_congr_left
+    intro p hp
+    simp only [Function.comp, normParam_eq, h p hp]
+  have htypes : activeTypes N (N.params.map (fun p => (p, f p))) =
+      activeTypes N (N.params.map (fun p => (p, g p))) := by
+    apply activeTypes_congr
+    intro p hp t _
+    rw [← normVal_truthy N p (f p), ← normVal_truthy N p (g p), h p hp]
+  rw [hmap, htypes]
+
+theorem normVal_of_not_zeroed {p : String} (h : N.zeroed.contains p = false) (v : Value) :
+    normVal N p v = v := by
+  unfold normVal normParam
+  show (if (N.zeroed.contains p && !v.truthy) = true then (p, Value.num 0) else (p, v)).2 = v
+  rw [h]; rfl
+
+/-- **NoiseModel → JSON → NoiseModel** gives the instance back, provided the effective-noise lists
+have equal length and every parameter no active noise type uses is unset (stored like its default). -/
+theorem noise_json_roundtrip (F : NoiseFacts N) {b : Bool} (hb : vals "with_leakage" = .bool b)
+    {rs os : List Value} (hr : vals "eff_noise_rates" = .list rs) (ho : vals "eff_noise_opers" = .list os)
+    (hlen : rs.length = os.length)
+    (hclean : ∀ p ∈ N.params, special p = false → noiseRelevant N (nmOf N vals) p = false →
+      normVal N p (vals p) = normVal N p (N.dfl p)) :
+    noiseDecode N (noiseEncode (nmOf N vals)) = nmOf N vals := by
+  -- what the decoder reads
+  have hrates : Record.get? (nmOf N vals) "eff_noise_rates" = some (.list rs) := by
+    rw [noiseInit_get?_param F vals F.ratesParam, hr, normVal_of_not_zeroed F.ratesNotZeroed]
+  have hopers : Record.get? (nmOf N vals) "eff_noise_opers" = some (.list os) := by
+    rw [noiseInit_get?_param F vals F.opersParam, ho, normVal_of_not_zeroed F.opersNotZeroed]
+  have heff := noiseEncode_get?_eff vals F
+  rw [hrates, hopers] at heff
+  simp only at heff
+  have htypes : (noiseEncode (nmOf N vals)).getD "noise_types" (.list []) =
+      .list ((typesOf N vals).map .str) := by
+    unfold Record.getD
+    rw [noiseEncode_get?_kept vals F (by decide) (Or.inl rfl), noiseInit_get?_types]; rfl
+  have hparam : ∀ p, p ∈ N.params → special p = false → ∀ d,
+      (noiseEncode (nmOf N vals)).getD p d = normVal N p (vals p) := by
+    intro p hp hs d
+    unfold Record.getD
+    rw [noiseEncode_get?_kept vals F hs (Or.inr hp), noiseInit_get?_param F vals hp]; rfl
+  have hsp := hparam "state_prep_error" (typed_mem_params F F.spam) (by decide) (.num 0)
+  have has := hparam "amp_sigma" (typed_mem_params F F.ampSigma) (by decide) (.num 0)
+  have hlw := hparam "laser_waist" (typed_mem_params F F.laserWaist) (by decide) .null
+  have hrel : ∀ p, isRelevant N (typesOf N vals) (normVal N "state_prep_error" (vals "state_prep_error"))
+      (normVal N "amp_sigma" (vals "amp_sigma")) (normVal N "laser_waist" (vals "laser_waist")) p =
+      noiseRelevant N (nmOf N vals) p := by
+    intro p
+    rw [noiseRelevant_eq, nm_getD_param vals F (typed_mem_params F F.spam),
+      nm_getD_param vals F (typed_mem_params F F.ampSigma),
+      nm_getD_param vals F (typed_mem_params F F.laserWaist)]
+  -- the decoder's constructor call
+  have hdec : noiseDecode N (noiseEncode (nmOf N vals)) =
+      noiseInit N (argsOf N (jsonBackVals N vals rs os)) := by
+    unfold noiseDecode
+    simp only [heff, htypes, strList_map_str, hsp, has, hlw,
+      unzip_zip_fst rs os hlen, unzip_zip_snd rs os hlen]
+    unfold argsOf
+    congr 1
+    apply List.map_congr_left
+    intro p hp
+    unfold jsonBackVals
+    by_cases h1 : p = "eff_noise_rates"
+    · simp [h1]
+    by_cases h2 : p = "eff_noise_opers"
+    · simp [h2]
+    by_cases h3 : p = "with_leakage"
+    · simp [h3]
+    have hs : special p = false := by unfold special; simp [h1, h2, h3]
+    simp only [if_neg h1, if_neg h2, if_neg h3, hrel p]
+    cases hrp : noiseRelevant N (nmOf N vals) p with
+    | true => simp only [if_true]; rw [hparam p hp hs]
+    | false => simp
+  rw [hdec]
+  apply noiseInit_congr
+  intro p hp
+  unfold jsonBackVals
+  by_cases h1 : p = "eff_noise_rates"
+  · rw [if_pos h1, h1, hr]
+  by_cases h2 : p = "eff_noise_opers"
+  · rw [if_neg h1, if_pos h2, h2, ho]
+  by_cases h3 : p = "with_leakage"
+  · rw [if_neg h1, if_neg h2, if_pos h3, h3, hb]
+    have hl := leakage_iff vals F (wl_mem_params F)
+    rw [hb] at hl
+    have : (typesOf N vals).contains "leakage" = b := by
+      cases b with
+      | true => simpa [List.contains_iff_mem] using hl.mpr rfl
+      | false =>
+        cases hc : (typesOf N vals).contains "leakage" with
+        | false => rfl
+        | true =>
+          have := hl.mp (by simpa [List.contains_iff_mem] using hc)
+          cases this
+    rw [this]
+  have hs : special p = false := by unfold special; simp [h1, h2, h3]
+  rw [if_neg h1, if_neg h2, if_neg h3]
+  cases hrp : noiseRelevant N (nmOf N vals) p with
+  | true => simp only [if_true]; exact normVal_idem N p _
+  | false =>
+    simp only [Bool.false_eq_true, if_false]
+    exact (hclean p hp hs hrp).symm
+
+end NoiseJson2
 
 end Codec
 end Pulser
